@@ -123,3 +123,28 @@ Theorem C15_double_ctrl_c_opposite_order :
     halted s2 = Some (Exited (status mod 256) false) /\ flag s2 f = 1 /\
     forall g, g <> f -> flag s2 g = flag s1 g.
 Proof. exact double_ctrl_c_opposite_order. Qed.
+
+(** The second signal arriving DURING the first delivery: the library's handler runs with its own
+    signal blocked (its flags carry no SA_NODEFER: C05), so the kernel delivers the second one when
+    the handler has returned - two deliveries back to back, nothing in between.  The first survives and
+    arms, the second exits.  (flag/Run.v [deliver_chain] applies that kernel rule for the scripts of the
+    correspondence check; here it is the instance [ws2 := []] of [C15_double_ctrl_c].) *)
+Corollary C15_second_signal_during_first :
+  forall (h0 : list op) (sig status f : Z) (ws1 : list op),
+    let s0 := run h0 init in
+    alive s0 -> actions_for sig (reg s0) = [] ->
+    Forall (keeps sig) ws1 ->
+    let s1 := run (OpRegister sig (CondExit status f) :: OpRegister sig (SetBool f) :: ws1) s0 in
+    alive s1 -> flag s1 f = 0 ->
+    let s2 := step (OpDeliver sig) s1 in
+    let s3 := step (OpDeliver sig) s2 in
+    alive s2 /\ halted s3 = Some (Exited (status mod 256) false).
+Proof.
+  intros h0 sig status f ws1 s0 Ha Hn Hk s1 Ha1 Hf s2 s3.
+  destruct (C15_double_ctrl_c h0 sig status f ws1 [] Ha Hn Hk (Forall_nil _) Ha1 Hf) as (Hal & Hfl & _ & H4).
+  split; [exact Hal|].
+  cbn [run fold_left] in H4.
+  assert (Hne : flag (step (OpDeliver sig) (run (OpRegister sig (CondExit status f) :: OpRegister sig (SetBool f) :: ws1) (run h0 init))) f <> 0)
+    by (rewrite Hfl; discriminate).
+  exact (proj1 (H4 Hal Hne)).
+Qed.
